@@ -37,6 +37,8 @@ ASSUMPTIONS = [
     "transaction packet generator: C45 contract (ready/done), free completion delay",
     "link: tx.ready free; packet parameters sampled in the first valid cycle / the tx_zlp cycle "
     "(DataPacketTransmitter latches them while waiting for data)",
+    "a packet counts as held once its last word was accepted at least two cycles before the IN request (for a packet "
+    "completed later either answer is accepted, but one answer is required)",
     "bounded response: a data packet starts at most 2 cycles after the IN request; ERDY is requested at most 2 cycles "
     "after data is available and the generator is ready",
 ]
@@ -257,11 +259,15 @@ class SSInHarness(Harness):
         in_had_data = Signal(name="in_had_data")
         data_for_req = Signal(name="data_for_req")   # reference queue content left for a request made in this cycle
         m.d.comb += data_for_req.eq(Mux(good, q_cnt > 1, have))
+        held_prev = Signal(name="held_prev")         # the reference queue was non-empty one cycle ago already
+        m.d.ss += held_prev.eq(data_for_req)
+        must_data = Signal(name="must_data")         # one cycle of reaction time before data is demanded
+        m.d.comb += must_data.eq(data_for_req & held_prev)
         with m.If(pkt_begin | nrdy_req):
             m.d.ss += since_in.eq(0)
         with m.Elif(inreq):
             # a packet completed in this very cycle may be answered either way (NRDY now, or data)
-            m.d.ss += [since_in.eq(1), in_had_data.eq(data_for_req | (closes & ~nrdy_req))]
+            m.d.ss += [since_in.eq(1), in_had_data.eq(~nrdy_req)]
         with m.Elif(since_in != 0):
             m.d.ss += since_in.eq(Mux(since_in == 7, 7, since_in + 1))
         erdy_wait = obs(Signal(3, name="erdy_wait"))
@@ -286,7 +292,7 @@ class SSInHarness(Harness):
         # ------------------------------------------------------------ assertions
         m.d.comb += [
             # IN request while holding a packet -> a data packet begins within 2 cycles, and no NRDY
-            v["in_gets_data"].eq(((since_in >= 3) & in_had_data & ~pkt_begin) | (inreq & data_for_req & hout.send_nrdy)),
+            v["in_gets_data"].eq(((since_in >= 3) & in_had_data & ~pkt_begin) | (inreq & must_data & hout.send_nrdy)),
             # IN request while holding nothing -> NRDY (requested in the same cycle), no data packet
             v["in_gets_nrdy"].eq(inreq & ~data_for_req & ~closes & ~retry & ~nrdy_req),
             # NRDY'd and data now available -> ERDY requested
